@@ -353,6 +353,7 @@ def compare(prop, ops_text, impl_out, model_out):
     for cid, ops in cases:
         il, ml = ic.get(cid, []), mc.get(cid, [])
         n = max(len(il), len(ml))
+        diverged = False
         for i in range(n):
             a = il[i] if i < len(il) else "<missing>"
             b = ml[i] if i < len(ml) else "<missing>"
@@ -368,6 +369,9 @@ def compare(prop, ops_text, impl_out, model_out):
             for bp, clause in bads:
                 if bp == prop or bp in aliases:
                     fails.append(Failure("bad", cid, i, "impl: %s" % a, clause))
+            if diverged:
+                continue  # later payloads of this case are not independent observations; the implementation-only
+                          # property oracles (!BAD, collected above) still are
             if not mine:
                 stats["other_prop"] += 1
                 continue
@@ -377,7 +381,7 @@ def compare(prop, ops_text, impl_out, model_out):
                 if a_clean.startswith("X panic") or a == "<missing>":
                     k = "crash"
                 fails.append(Failure(k, cid, i, "impl=%s model=%s" % (a_clean, b)))
-                break  # later lines of this case are not independent observations
+                diverged = True
     return fails, stats
 
 
